@@ -20,8 +20,11 @@ class SimInst:
 
 def sim_family(tier):
     out = [SimInst(s) for s in skeletons(tier)]
+    base = skeletons("quick")
+    out += [SimInst(base[0], "continuous-initial-states-given-as-integers")]
     if tier != "quick":
-        out += [SimInst(s, "initial-states-keys-reversed") for s in skeletons("quick")[:4]]
+        out += [SimInst(s, "initial-states-keys-reversed") for s in base[:4]]
+        out += [SimInst(s, "continuous-initial-states-given-as-integers") for s in base[1:5]]
     return out
 
 
@@ -90,6 +93,8 @@ def run_simulation(k, inst, targets=None, via_solve_model=False):
                 init[s] = k.array(f"init.{s}", [n], "int", gen=lambda rng, shp, nl=nl: [rng.randrange(nl) for _ in range(shp[0])])
                 if sym:
                     k.requires(L.forall([n], lambda ix, s=s, nl=nl: L.And(k.at(init[s], ix) >= 0, k.at(init[s], ix) < nl)))
+            elif inst.variant == "continuous-initial-states-given-as-integers":
+                init[s] = k.array(f"init.{s}", [n], "int", gen=lambda rng, shp: [rng.randrange(0, 3) for _ in range(shp[0])])
             else:
                 g = b.grid_syms[s]
                 init[s] = k.array(f"init.{s}", [n], "float", gen=lambda rng, shp, g=g: [g[1] + (g[2] - g[1]) * rng.random() for _ in range(shp[0])])
@@ -122,6 +127,10 @@ def run_simulation(k, inst, targets=None, via_solve_model=False):
         else:
             frame = k.call_fn(sim, P, vf_arr_list=list(vf), **kwargs)
         S.frame = frame
+        if sym:
+            from pyvc.ctx import cur
+
+            S.array_applications_in_targets = [e["name"] for e in cur().events if e.get("kind") == "array-application" and e.get("in_targets")]
     finally:
         for r in reversed(restores):
             r()
@@ -348,6 +357,10 @@ def targets_contract(k, inst):
     feasible_choice_exists(k, S)
     n, T = S.n, skel.n_periods
     cols = set(S.frame.columns)
+    if k.mode != "native":
+        # the targets are evaluated row by row (through the row dispatcher), never on whole columns:
+        # only then does a target that is not an elementwise function get the row's own values
+        k.ensures("targets-are-evaluated-row-wise", not S.array_applications_in_targets)
     k.ensures("one-column-per-target", set(targets) <= cols)
     if not set(targets) <= cols:
         return
@@ -361,3 +374,135 @@ def targets_contract(k, inst):
                     k.ensures(f"target-is-the-model-function-at-the-row[{tg}]", L.Iff(got, want))
                 else:
                     k.ensures(f"target-is-the-model-function-at-the-row[{tg}]", k.close(got, want))
+
+
+# ----------------------------------------------------------------------------- C04: keys and routing
+def stochastic_family(tier):
+    return [i for i in sim_family(tier) if i.skel.stochastic_states() and not i.variant]
+
+
+@contract("lcm.simulate.simulate", cid="C04.key-discipline", family=stochastic_family, props=("C04",))
+def key_discipline_contract(k, inst):
+    """(what contracts can decide of C04) every PRNG key is used at most once over all periods, stochastic
+    variables and agents: the carry key is split once per period into one key per stochastic variable plus
+    the next carry, each variable key is split into one key per agent, each agent key is used for exactly one
+    draw; draws are taken from the grid of the state with the agent's own transition row (C03); nothing in
+    period 0 depends on the seed.  (frequencies / independence: assumed PRNG contract, not decided)"""
+    if k.mode == "native":
+        S = run_simulation(k, inst)
+        if isinstance(S, Raised):
+            k.fail("simulation-runs", repr(S))
+            return
+        # same seed -> identical frame; another seed -> identical period 0
+        import numpy as np
+
+        kw = dict(initial_states=S.init, vf_arr_list=list(S.vf))
+        f1 = k.call_fn(S.sim, S.P, seed=int(S.seed), **kw)
+        f2 = k.call_fn(S.sim, S.P, seed=int(S.seed) + 17, **kw)
+        n = int(S.n)
+        k.ensures("same-seed-same-frame", all(np.array_equal(np.asarray(S.frame[c].values), np.asarray(f1[c].values)) for c in S.frame.columns))
+        k.ensures("period-0-does-not-depend-on-the-seed", all(np.array_equal(np.asarray(S.frame[c].values)[:n], np.asarray(f2[c].values)[:n]) for c in S.frame.columns))
+        return
+    import z3
+
+    from pyvc.ctx import cur
+    from pyvc.stubs.jnp_impl import _forall
+    from pyvc.values import T
+    from pyvc.vc import _symbols
+
+    S = run_simulation(k, inst)
+    if isinstance(S, Raised):
+        k.fail("simulation-runs", repr(S))
+        return
+    ctx = cur()
+    events = [e for e in ctx.events if e.get("kind") in ("split", "draw")]
+    skel, n = S.skel, S.n
+    n_st = len(skel.stochastic_states())
+    k.ensures("one-split-of-the-carry-key-per-period-and-one-per-variable-and-one-draw-per-variable", len([e for e in events if e["kind"] == "split"]) == skel.n_periods * (1 + n_st) and len([e for e in events if e["kind"] == "draw"]) == skel.n_periods * n_st)
+
+    def renamed(e, tag):
+        vs = [v for v, _ in e["binders"]]
+        new = [z3.Int(f"{v}{tag}") for v in vs]
+        key = z3.substitute(e["key"], *zip(vs, new)) if vs else e["key"]
+        rng = [z3.And(nv >= 0, nv < m) for nv, (_, m) in zip(new, e["binders"])]
+        return key, new, rng
+
+    for a in range(len(events)):
+        for b in range(a, len(events)):
+            ka, va, ra = renamed(events[a], "'a")
+            kb, vb, rb = renamed(events[b], "'b")
+            if a == b:
+                if not va:
+                    continue
+                goal = z3.Implies(z3.And(*ra, *rb, z3.Or(*[x != y for x, y in zip(va, vb)])), ka != kb)
+            else:
+                goal = z3.Implies(z3.And(*ra, *rb), ka != kb)
+            if va or vb:
+                goal = z3.ForAll(va + vb, goal) if (va + vb) else goal
+            k.ensures(f"no-key-is-used-twice[{a},{b}]", T(goal))
+    # period 0 does not depend on the seed: the seed does not occur in the terms of the period-0 rows
+    # period 0 does not depend on the seed: replacing the seed by any other seed leaves every period-0 entry equal
+    seed2 = z3.Int("another.seed")
+    for (i0,) in k.indices([n], name="agent.p0_"):
+        for c in S.frame.columns:
+            term = S.frame.columns[c].get((i0.e,))
+            k.ensures(f"period-0-does-not-depend-on-the-seed[{c}]", T(term == z3.substitute(term, (S.seed.e, seed2))))
+
+
+# ----------------------------------------------------------------------------- C06: solve and simulate agree
+@contract("lcm.simulate.simulate", cid="C06.solve-and-simulate-path", family=sim_family, props=("C06",))
+def solve_and_simulate_contract(k, inst):
+    """(statement of C06) simulating with a solve function instead of value arrays calls that function exactly
+    once, with the params of the call, and then uses the returned list exactly like a list passed in: period t
+    reads element t+1 (nothing in the last period); with neither a list nor a solve function it raises
+    ValueError; the function returned for 'solve_and_simulate' is the simulate function with the model's solve
+    function bound; one utility-and-feasibility function is generated per period and feeds both the solver's and
+    the policy's functions."""
+    if bounded_only_if_restricted_choices(k, inst.skel, {"simulation-runs", "solve-function-called-once-with-the-params", "same-frame-as-passing-the-solution"}):
+        return
+    S = run_simulation(k, inst, via_solve_model=True)
+    if isinstance(S, Raised):
+        k.fail("simulation-runs", repr(S))
+        return
+    skel, T = S.skel, S.skel.n_periods
+    k.ensures("solve-function-called-once-with-the-params", len(S.solve_calls) == 1 and (S.solve_calls[0] is S.P or k.mode == "native"))
+    if k.mode == "native":
+        import numpy as np
+
+        f2 = k.call_fn(S.sim, S.P, initial_states=S.init, vf_arr_list=list(S.vf), seed=int(S.seed))
+        k.ensures("same-frame-as-passing-the-solution", all(np.allclose(np.asarray(S.frame[c].values, dtype=float), np.asarray(f2[c].values, dtype=float)) for c in S.frame.columns))
+        return
+    for t in range(T):
+        o = S.opaque.get(t)
+        ok = o is not None and len(o.helpers_seen) >= 1
+        k.ensures(f"one-generated-function-per-period[{t}]", ok)
+        if not ok:
+            return
+        seen = o.helpers_seen[-1]
+        if t < T - 1:
+            k.ensures(f"period-reads-element-t+1-of-the-returned-list[{t}]", seen.get("vf_arr") is S.vf[t + 1])
+        else:
+            k.ensures("last-period-reads-no-value-array", seen.get("vf_arr", None) is None)
+    none = k.call_fn(S.sim, S.P, initial_states=S.init)
+    k.ensures("neither-list-nor-solve-function-is-rejected", isinstance(none, Raised) and isinstance(none.exc, ValueError))
+    # the entry point wires solve_and_simulate = simulate with the model's solve function bound
+    restore = install_overrides(k, k.world)
+    made, restore2 = install_opaque_uf(k, k.world, skel)
+    created = []
+    try:
+        both = k.call_fn(k.fn("lcm.entry_point.get_lcm_function"), model=S.b.model, targets="solve_and_simulate", jit=False)
+    finally:
+        restore2()
+        restore()
+    if isinstance(both, Raised):
+        k.fail("solve-and-simulate-function-created", repr(both))
+        return
+    fn, _tmpl = both
+    kw = getattr(fn, "keywords", {})  # functools.partial flattens partial(partial(simulate, ...), solve_model=...)
+    sm = kw.get("solve_model")
+    inner = getattr(fn, "func", None)
+    k.ensures("solve-and-simulate-is-simulate-with-solve-bound", sm is not None and getattr(sm, "func", None) is k.fn("lcm.solve_brute.solve") and inner is k.fn("lcm.simulate.simulate"))
+    if sm is not None and inner is not None:
+        skw, ikw = getattr(sm, "keywords", {}), kw
+        k.ensures("solver-and-simulation-share-indexers-and-choice-grids", skw.get("state_indexers") is ikw.get("state_indexers") and skw.get("continuous_choice_grids") is ikw.get("continuous_choice_grids"))
+        k.ensures("one-utility-and-feasibility-function-per-period-feeds-both", sorted(made) == list(range(T)) and len(skw.get("compute_ccv_functions", [])) == T and len(ikw.get("compute_ccv_policy_functions", [])) == T)
